@@ -1,5 +1,5 @@
 (* Properties_C13.v — a provider withdraws or replaces everything it stops serving. *)
-From QV Require Import Base Fields SrcFacts Msg SrcDecisions Cache CacheSpec Sim Prober Hostname Provider ProviderSpec ProviderProofs ProviderListener.
+From QV Require Import Base Fields SrcFacts Msg SrcDecisions Cache CacheSpec Sim Prober Hostname Provider ProviderSpec ProviderProofs ProviderListener ProviderReply.
 Local Open Scope Z_scope.
 
 (* Handler level (the run-level listener theorem follows below).  Proved: farewell() multicasts exactly the currently published PTR, SRV and TXT with TTL 0; a completed
@@ -66,3 +66,11 @@ Example C13_nonvacuous :
   pv_confirmed (cp_prov (fst run)) = true /\
   snd (let c := fst run in (c, listen (snd run) (snd (comp_handle 8000 c (EvApi PDestroy))))) = [].
 Proof. vm_compute. repeat split. Qed.
+
+(* what a provider answers to a question is - apart from the service-type enumeration record - held by every passive
+   listener of its multicast announcements (the acceptor's rule 43, proved of the model over all histories) *)
+Theorem C13_replies_are_announced c L m m' : lreach c L -> pv_exists (cp_prov c) = true ->
+  In (ESend m') (prov_on_message (cp_prov c) m) ->
+  forall r, In r (m_records m') -> r = pv_browse (cp_prov c) \/ In r L.
+Proof. exact (replies_are_announced c L m m'). Qed.
+Print Assumptions C13_replies_are_announced.
